@@ -274,7 +274,7 @@ def _const_strings(f, operand, depth=0):
     return out
 
 
-def _symbol_literal(f, operand):
+def _symbol_literal(f, operand, _depth=0):
     """literal(s) fed to TokenReference::symbol / identifier of TokenReference::new reaching `operand`."""
     lits = []
     kinds = []
@@ -287,7 +287,38 @@ def _symbol_literal(f, operand):
             kinds.append("new")
             tt = f.blocks[r[2]]["term"]
             lits += _const_strings(f, tt["args"][1])
+        elif r[0] == "call" and _depth < 2:
+            # a private helper that builds the token from a text it is handed (`contextual_keyword("type")`)
+            h = f.prog.fn(f.crate, r[1])
+            if h is not None and h.kind != "Closure" and strip_ty(h.locals[0]).endswith("TokenReference") and len(h.blocks) <= 40:
+                tt = f.blocks[r[2]]["term"]
+                sub, subk = _symbol_literal(h, {"cp": {"l": 0}}, _depth + 1)
+                lits += sub
+                kinds += subk
+                for arg_i in _param_texts(h):
+                    if arg_i - 1 < len(tt["args"]):
+                        lits += _const_strings(f, tt["args"][arg_i - 1])
     return lits, kinds
+
+
+def _param_texts(h):
+    """parameters of helper h whose value becomes the text of the token it builds"""
+    out = set()
+
+    def walk(o, depth=0):
+        for r in provenance(h, o):
+            if r[0] == "arg":
+                out.add(r[1])
+            elif r[0] == "call" and depth < 4 and re.search(r"(Token::new|TokenReference::new|TokenReference::symbol|"
+                                                           r"ShortString::new|::from|::into)$", r[1]):
+                for a in h.blocks[r[2]]["term"]["args"]:
+                    if not is_const(a):
+                        walk(a, depth + 1)
+            elif r[0] == "agg":
+                pass
+    walk({"cp": {"l": 0}})
+    # aggregates (TokenType::Identifier { identifier: text.into() }) are looked into by provenance(into_aggs=True)
+    return {i for i in out if "str" in h.locals[i] or "String" in h.locals[i]}
 
 
 def _expected_lexeme(prog, f, ap):
